@@ -346,9 +346,7 @@ def impl_call(case):
         nat = case.get('native')
         if sp is not None and nat:
             res['native'] = guarded(lambda: native_samples(sp, [O.fl(x) for x in nat['xs']], nat['unit']))
-        # the analytic integral is requested through the default sampling set (mean +- 5 sigma), which is refused
-        # when it reaches non-positive wavelengths (C13's subject): only features narrower than a third of the centre
-        if sp is not None and case.get('gaussflux') and O.fl(case['z']) == 0 and case.get('cond', 1.0) > 3:
+        if sp is not None and case.get('gaussflux') and O.fl(case['z']) == 0 and case['gaussflux'].get('integral'):
             res['integral'] = guarded(lambda: sp.integrate(integration_type='analytical').value)
     return res
 
@@ -496,8 +494,8 @@ def oracle(rep, case, out):
     gf = case.get('gaussflux')
     if gf:
         p = Q['ok']['params']
-        F_, m, w = O.fl(gf['F']), O.fl(gf['mean_aa']), O.fl(gf['fwhm_aa'])
-        sigma = w / (2 * math.sqrt(2 * math.log(2)))
+        F_, m = O.fl(gf['F']), O.fl(gf['mean_aa'])
+        sigma = O.fl(gf['fwhm_aa']) / (2 * math.sqrt(2 * math.log(2))) if 'fwhm_aa' in gf else O.fl(gf['sigma_aa'])
         peak = F_ / (sigma * math.sqrt(2 * math.pi)) * m / (HF * CF)
         for name, got, want in (('sigma', p['stddev'][0], sigma), ('peak', p['amplitude'][0], peak)):
             if not abs(got - want) <= PRTOL * abs(want):
@@ -786,10 +784,13 @@ def gen_case(rng, K, BB, model, cls, z, names, focus=None, focus_unit=None, ntab
         a, al = O.fl(args['amplitude']['v'][0]), O.fl(args['alpha']['v'][0]) * (0.01 if units['alpha'] == 'percent' else 1.0)
         case['native'] = {'what': 'power_law', 'unit': amp_unit, 'xs': case['xs'],
                           'expect': qs([a * (O.fl(x) / refaa) ** (-al) for x in case['xs']])}
-    if model == 'GaussianFlux1D' and names == ['total_flux', 'mean', 'fwhm'] and regular:
+    if model == 'GaussianFlux1D' and 'total_flux' in names and regular:
         tf = args['total_flux']
         case['gaussflux'] = {'F': q(O.fl(tf['v'][0]) * (float(UNITS[tf['u']]['s']) if tf['u'] else 1.0)),
-                             'mean_aa': q(refaa), 'fwhm_aa': q(width)}
+                             'mean_aa': q(refaa), ('fwhm_aa' if 'fwhm' in names else 'sigma_aa'): q(width)}
+        # the analytic integral goes through the default sampling set (mean +- 5 sigma), refused when it reaches
+        # non-positive wavelengths (C13's subject)
+        case['gaussflux']['integral'] = refaa > 6 * (width / 2.3548 if 'fwhm' in names else width)
     return case
 
 
@@ -1023,6 +1024,10 @@ RULE = ('SourceSpectrum (z in {-7/8, -1/2, -1/4, -1/1024, 0, 1/1024, 1/2, 3, 20}
         'around the feature scaled by 1+z (box: never within 0.1 width of a jump). Invalid requests: count / mag(OB) / mag(VEGA) / '
         'non-flux amplitudes on a source, a non-PHOTLAM flux amplitude for Const1D (no reference wavelength), unsupported and non-model classes, n_models != 1, dimensioned throughput, non-spectral '
         'wavelength units, wrong temperature / exponent / total-flux units, missing reference parameter, zero frequency. '
+        'Special values: every numeric parameter of every class exactly 0 (as int, float, NumPy scalars, 0-d array, as a '
+        'Quantity in each of its units; -0.0 where the code does not divide by the value), negative, and for flux-like '
+        'parameters 2^-120 and 2^60; a zero / negative width, centre or slope is compared on construction and stored '
+        'parameters only (evaluate() is singular there). '
         'Non-trivial: at least one keyword is a Quantity, or the request is invalid.')
 
 
